@@ -26,13 +26,15 @@ SYSTEMATIC = [
     [("capture", 0, [("for", 2, [("assign", 1, "q")])]), ("echo", 0), ("echo", 1)],
     [("for", 2, [("tablerow", 2, [("render", [T("€")])])])],
     [("ifchanged", [("capture", 0, [T("abc")])]), ("ifchanged", [("echo", 0)]), ("ifchanged", [("echo", 0)])],
+    [T("a\r\nb"), ("capture", 0, [T("c\rd")]), ("echo", 0), ("ifchanged", [T("e\r\nf")])],
+    [("renderfor", 2, [("echo", 0), ("assign", 0, "q"), ("ifchanged", [T("r")])]), ("echo", 0)],
 ]
 
 
 def gen_nests(ck: Check):
     for n in SYSTEMATIC:
         yield "systematic", n
-    for _ in range(220 if ck.quick else 2500):
+    for _ in range(160 if ck.quick else 2000):
         yield "random", L.gen_tree(ck.rng, maxdepth=3, lengths=(0, 1, 2, 3), width=3)
 
 
@@ -60,7 +62,7 @@ def judge_ns(limit, s, a, true_log, ns_log):
 
 def run(ck: Check) -> None:
     ck.rule = (
-        "16 systematic nests + seeded random trees (depth <= 3, up to 3 children) over text with 1-4 byte characters, {{ var }}, assign, "
+        "18 systematic nests + seeded random trees (depth <= 3, up to 3 children) over text with 1-4 byte characters, {{ var }}, assign, "
         "capture, ifchanged, for, tablerow, include, include-with-array, render, render-for and macro calls; for each, the unlimited "
         "output size S is measured and output_stream_limit swept over 0..2S (every value when 2S <= 40, else 25 values incl. S-1, S, S+1), "
         "and local_namespace_limit swept over 0, every observed namespace size t (t-1, t), and 2*max; sync and async. "
